@@ -1732,7 +1732,10 @@ func (c *kctx) execSendRaw(i int, op KOp) {
 				panicked = fmt.Sprint(r)
 			}
 		}()
-		seq, err = c.realNL.Send(syscall.NetlinkMessage{Header: syscall.NlMsghdr{Type: uint16(op.C), Flags: uint16(op.B), Pid: uint32(op.D), Len: 7, Seq: 99}, Data: payload})
+		// whatever the caller left in the header's length and sequence fields (a message
+		// that was received and is answered, a request struct used again) is not Send's input
+		staleLen := []uint32{7, 0, 16, uint32(16 + len(payload)), uint32(15 + len(payload)), uint32(20 + len(payload)), 8986, 1 << 31}[(op.E>>5)&7]
+		seq, err = c.realNL.Send(syscall.NetlinkMessage{Header: syscall.NlMsghdr{Type: uint16(op.C), Flags: uint16(op.B), Pid: uint32(op.D), Len: staleLen, Seq: 99}, Data: payload})
 	}()
 	c.mix(uint64(seq)<<20 ^ uint64(op.A))
 	c.tr("#%d Send type=%d flags=%#x pid=%d payload=%d bytes -> seq=%d err=%v", i, op.C, op.B, op.D, op.A, seq, err)
